@@ -21,3 +21,17 @@ def gen_needing(repo):
 if __name__ == "__main__":
     import sys
     print(gen_needing(sys.argv[1] if len(sys.argv) > 1 else "/repo"))
+
+
+def gen_fields(repo):
+    """default-field rules of NeedState._resolve / NeedIndirect._resolve (the `if not <field>:` statements)"""
+    import ast
+    path = os.path.join(repo, "ioflo", "base", "needing.py")
+    tree = ast.parse(open(path).read())
+    out = [core.HEADER % ("props/C21/translate.py", path)]
+    out.append(core.slice_function(core.find_method(tree, "NeedState", "_resolve"), "stateField",
+                                   ["state", "stateField"], ["state"], "state_default_field"))
+    out.append("\n")
+    out.append(core.slice_function(core.find_method(tree, "NeedIndirect", "_resolve"), "goalField",
+                                   ["goal", "goalField", "stateField"], ["goal"], "goal_default_field"))
+    return "".join(out)
